@@ -682,6 +682,16 @@ where
                     e
                 });
             }
+            // The complement of a child is not necessarily at the child's level
+            // (e.g., for ZBDDs with `not_edge_owned()` as `complement`)
+            if child_edges
+                .iter()
+                .any(|e| level >= manager.get_node(e).level())
+            {
+                return err(format!(
+                    "node level must be less than the levels of the (complemented) children (line {line_no})",
+                ));
+            }
             <M::Rules as DiagramRules<_, _, _>>::reduce(manager, level, child_edges.into_vec())
                 .then_insert(manager, level)?
         };
@@ -798,7 +808,8 @@ where
         let Some(&level) = suppvar_level_map.get(vid) else {
             return err("variable ID out of range");
         };
-        if level >= t_level || level >= e_level {
+        // `e` may have been complemented, so `e_level` may be outdated
+        if level >= t_level || level >= e_level || level >= manager.get_node(&e).level() {
             return err("node level must be less than the children's levels");
         }
 
